@@ -10,7 +10,7 @@
 (***************************************************************************)
 EXTENDS Integers, Sequences, TLC, Json, CSV, IOUtils
 
-CONSTANTS Depths, Variants
+CONSTANTS Depths, ParserDepths, Variants     \* ParserDepths: additional depths for the recursive-descent entry points
 
 F(fam, name, pre, open, mid, close, post) ==
     [fam |-> fam, name |-> name, pre |-> pre, open |-> open, mid |-> mid, close |-> close, post |-> post]
@@ -26,6 +26,11 @@ Families == {
   F("js", "index", "a", "", "", "[b]", ""), F("js", "binary", "a", "", "", "+a", ""), F("js", "comma", "a", "", "", ",a", ""),
   F("js", "nullish", "a", "", "", "??a", ""), F("js", "callarg", "", "f(", "a", ")", ""), F("js", "spread", "", "[...", "a", "]", ""),
   F("js", "taggedtpl", "a", "", "", "`b`", ""), F("js", "incr", "", "++", "a", "", ""),
+  \* ---- JavaScript: every level holds a complete sibling group before the next level opens
+  F("js", "parensibling", "", "((a),", "a", ")", ""), F("js", "arraysibling", "", "[(a),", "a", "]", ""), F("js", "callsibling", "", "f((a),", "a", ")", ""),
+  F("js", "arrayarray", "", "[[a],", "b", "]", ""), F("js", "objectsibling", "x=", "{a:(b),c:", "d", "}", ""), F("js", "blocksibling", "", "{a;", "", "}", ""),
+  F("js", "ifsibling", "", "if(a){b}else{", "", "}", ""), F("js", "funcsibling", "", "function f(){g();", "", "}", ""), F("js", "condsibling", "", "(a)?(b):", "c", "", ""),
+  F("js", "templatesibling", "", "`${(a)}${", "b", "}`", ""), F("js", "arrowsibling", "", "(a=(b))=>", "c", "", ""), F("js", "bindingsibling", "let ", "[[a],", "b", "]", "=c"),
   \* ---- JavaScript: bindings
   F("js", "arraybinding", "let ", "[", "a", "]", "=b"), F("js", "objectbinding", "let ", "{a:", "b", "}", "=c"),
   F("js", "parambinding", "function f(", "[", "a", "]", "){}"), F("js", "bindingdefault", "let [a=", "[b=", "c", "]", "]=d"),
@@ -42,7 +47,9 @@ Families == {
   F("css", "brace", "", "{", "", "}", ""), F("css", "ruleset", "", "a{", "b:c", "}", ""), F("css", "media", "", "@media x{", "a{b:c}", "}", ""),
   F("css", "selparen", "", "a:not(", "b", ")", "{c:d}"), F("css", "selbracket", "a", "[", "b", "]", "{c:d}"), F("css", "declbrace", "a{b:", "{", "c", "}", "}"),
   F("css", "inlineparen", "b:", "(", "c", ")", ""), F("css", "atbrace", "@x ", "{", "", "}", ""),
+  F("css", "rulesetsibling", "", "a{b:c;", "d:e", "}", ""), F("css", "parensibling", "a{b:", "((c) ", "d", ")", "}"),
   \* ---- JSON
+  F("json", "arraysibling", "", "[[1],", "2", "]", ""), F("json", "objectsibling", "", "{\"a\":[],\"b\":", "1", "}", ""),
   F("json", "array", "", "[", "1", "]", ""), F("json", "object", "", "{\"a\":", "1", "}", ""), F("json", "mixed", "", "[{\"a\":", "1", "}]", ""),
   \* ---- XML / HTML
   F("xml", "element", "", "<a>", "x", "</a>", ""), F("xml", "attr", "", "<a b=\"c\">", "", "</a>", ""), F("xml", "cdata", "", "<![CDATA[", "x", "]]>", ""),
@@ -57,9 +64,10 @@ LangsOf(fam) == CASE fam = "js"   -> {"js.parse.0.0", "js.parse.1.1", "js.lex"}
 
 VARIABLE c
 CaseFile == IOEnv.VERIF_CASES
+Recursive == {"js.parse.0.0", "js.parse.1.1"}
 Cases == {[f |-> f, lang |-> lg, depth |-> d, variant |-> v] : f \in Families, lg \in {"js.parse.0.0", "js.parse.1.1", "js.lex", "css.parse",
-          "css.inline", "css.lex", "json", "xml", "html", "html.tmpl.go"}, d \in Depths, v \in Variants}
-Valid(x) == x.lang \in LangsOf(x.f.fam)
+          "css.inline", "css.lex", "json", "xml", "html", "html.tmpl.go"}, d \in Depths \cup ParserDepths, v \in Variants}
+Valid(x) == x.lang \in LangsOf(x.f.fam) /\ (x.depth \in Depths \/ x.lang \in Recursive)
 \* every case is one initial state; it is written out when TLC computes it
 Init == /\ c \in {x \in Cases : Valid(x)}
         /\ CSVWrite("%1$s", <<ToJson([lang |-> c.lang, name |-> c.f.name, pre |-> c.f.pre, open |-> c.f.open, mid |-> c.f.mid,
